@@ -195,6 +195,27 @@ pub fn engine_positions(seed: u64, shard: u64, nshards: u64, n_random: u64, want
             out.push(EnginePos { label: "corpus", pos: p.clone(), history: vec![] });
         }
     }
+    // extremal move lists (18 entries: 16 mobile men + two e.p. capturers) and the position one ply
+    // before, so that the extremal list also arises inside the tree
+    {
+        let mut ex = Vec::new();
+        workload::extremal_family(&mut ex);
+        for (i, cr) in ex.into_iter().enumerate() {
+            if i as u64 % nshards.min(4) != shard % nshards.min(4) {
+                continue;
+            }
+            let mut p = cr.pre.clone();
+            if p.chess_root_ok().is_ok() && !cr.moves.is_empty() {
+                out.push(EnginePos { label: "extremal-before-double-step", pos: p.clone(), history: vec![] });
+            }
+            for m in &cr.moves {
+                p = p.apply(*m);
+            }
+            if p.chess_root_ok().is_ok() {
+                out.push(EnginePos { label: "extremal", pos: p, history: vec![] });
+            }
+        }
+    }
     // hopeless positions: every legal move allows an immediate mate / stalemate
     {
         let mut rng = Rng::new(mix3(seed, shard, 0x40BE));
@@ -318,7 +339,16 @@ pub fn judge_c11(c: &mut Collector, ep: &EnginePos, board: &Board, tf: &ThreeFol
                     }
                 }
                 None => {
-                    if !legal.is_empty() && commits.iter().any(|(d, _, _)| *d == 0) {
+                    if !legal.is_empty() && o.first_true.is_none() {
+                        // the limit never reported expiry, the search stopped by itself: whatever
+                        // passes it ran have finished, so it must hand back a move
+                        c.violation(
+                            "no-move-although-limit-never-expired",
+                            ep.label,
+                            format!("{} k={k}: the search returned no move after {} polls although the limit never expired ({} legal moves, {} passes committed)", ep.pos.to_fen(), o.polls, legal.len(), commits.len()),
+                            rp(),
+                        );
+                    } else if !legal.is_empty() && commits.iter().any(|(d, _, _)| *d == 0) {
                         c.violation(
                             "no-move-after-completed-pass",
                             ep.label,
